@@ -4,7 +4,8 @@ R1  MC_LoopDeps: invariant RotationInvariant -- for every kernel over DepsAlphab
     offset the declarative cycles of the rotated kernel, mapped back, equal those of the original
     (a theorem about the specification), next to the Level-B search = declarative cycles.
 R3  Real code: generated kernels (register dependencies, write-back addressing, composed loads)
-    on synthetic models and every shipped example/test kernel on shipped models are analysed at
+    on synthetic models, kernels of 50..57 lines (the multi-process search: short cycles scattered
+    over filler lines, 4 / 12 rotation offsets) and every shipped example/test kernel on shipped models are analysed at
     offset 0 and at rotation offsets; Trace_Deps clause `rot`: the LCD set of the rotated
     analysis mapped back to original positions (members + latency) and the LCD figure equal what
     TLC computes from the unrotated observed graph; clause `lcd` validates the unrotated run."""
@@ -22,7 +23,7 @@ def main(tier, seed):
         run.add_mc(tlc.run_tlc("MC_LoopDeps", "MC_LoopDeps_n3r", workers=16, timeout=2400), "MC_LoopDeps_n3r")
     cases = deps_run.rotation_cases(run, "C14", seed, 300 if quick else 3000, 8, not quick,
                                     env.QUICK_X86[:2] if quick else env.X86_ARCHS,
-                                    env.QUICK_ARM[:2] if quick else env.ARM_ARCHS, max_shipped_rot=None)
+                                    env.QUICK_ARM[:2] if quick else env.ARM_ARCHS, max_shipped_rot=None, n_long=5 if quick else 40)
     deps_run.finish_family(run, "C14", cases)
     for c in cases:
         if "error" not in c and "r" in c and any(len(x[1]) >= 2 for x in c["lcd"]):
